@@ -5,10 +5,12 @@
 // once. The threads it has just woken are still inside condition_variable::wait(): they re-lock
 // _mutex, re-evaluate the predicate (_queue, _closed) and unlock -- on destroyed / freed members.
 //
-// The misuse is only observable with a sanitizer, so this program must be built with
-// -fsanitize=address (default in run.sh) or -fsanitize=thread:
-//   exit 1 + "DEFECT: ..."  the sanitizer reported a use of the destroyed queue (or a caller did not
-//                           return "closed", or the destructor / the callers hung)
+// Build with -fsanitize=thread (the race "operator delete vs. woken caller" is reported from the
+// happens-before graph, independent of timing) or -fsanitize=address (needs the free to win the race:
+// heap-use-after-free in the wait predicate, or the woken caller blocks for ever on the freed mutex
+// because the allocator's free stamp sits on the lock word). run.sh does both.
+//   exit 1 + "DEFECT: ..."  the sanitizer reported a use of the destroyed queue, or a woken caller never
+//                           returned / did not return "closed", or the destructor hung
 //   exit 0 + "OK"           every parked caller returned false and nothing touched the dead queue
 //   exit 2                  replay could not run (built without a sanitizer)
 //
@@ -84,6 +86,12 @@ extern "C" void __tsan_on_report(void *)
 static void onAlarm(int)
 {
   defect("watchdog: ~BlockingQueue() or the woken callers did not finish within 15 s");
+  _exit(1);
+}
+
+static void onAbort(int)
+{
+  defect("aborted: glibc assertion on the destroyed mutex / condition variable");
   _exit(1);
 }
 
@@ -203,7 +211,14 @@ static bool runScenario(const char *name, bool fill, const std::vector<Call> &ca
 
 int main()
 {
+#if !defined(REPLAY_ASAN) && !defined(REPLAY_TSAN)
+  // A plain build only shows the defect when the allocator's bookkeeping lands on the mutex before the
+  // last woken caller re-locks it (rare with glibc malloc): it would print a misleading OK.
+  std::printf("ERROR: build with -fsanitize=thread or -fsanitize=address (see run.sh)\n");
+  return 2;
+#endif
   std::signal(SIGALRM, onAlarm);
+  std::signal(SIGABRT, onAbort);
   ::alarm(15);
 
   int iters = 50;
